@@ -101,6 +101,16 @@ class Table:
         return list(itertools.product(*per_axis)), tuple(out_shape)
 
     def get(self, idx):
+        first = idx[0] if isinstance(idx, tuple) else idx
+        if isinstance(first, list) and first and all(isinstance(r, list) and r and all(isinstance(x, int) and not isinstance(x, bool) for x in r) for r in first) \
+                and len({len(r) for r in first}) == 1:
+            # a 2-d index array on the first axis: one sub-table per row of the index, stacked
+            rest = idx[1:] if isinstance(idx, tuple) else ()
+            parts = [self.get((r,) + tuple(rest)) for r in first]
+            if all(isinstance(p_, Table) and p_.shape == parts[0].shape for p_ in parts):
+                out = Table((len(parts),) + parts[0].shape, {(i,) + k: v for i, p_ in enumerate(parts) for k, v in p_.data.items()})
+                return out
+            raise Unknown("ragged selection")
         pos, shape = self.positions(idx)
         if shape == ():
             return self.data[pos[0]]
@@ -176,6 +186,9 @@ def _dot(a, b):
     raise Unknown("dot of these shapes")
 
 
+POINT_CLASSES = {"PointTensor", "Point", "PointLikeTensor", "Tensor", "ProjectiveTensor", "BoundTensor"}
+
+
 class PointSym:
     """a Point parameter: normalized_array is (name0, ..., 1), array is (w name0, ..., w) with the scale w of the representative"""
 
@@ -214,6 +227,28 @@ class RootsOf:
 
     def __init__(self, coeffs: list):
         self.coeffs = coeffs
+
+
+class ObjSym(SymObject):
+    """an instance of a library class with known attributes: its other attributes are looked up in the class (properties and methods are interpreted)"""
+
+    def __init__(self, cls: ClassInfo, **attrs):
+        self.__dict__["_cls"] = cls
+        self.__dict__["_attrs"] = attrs
+
+
+class AbsVal(SymObject):
+    """scale * |inner|"""
+
+    def __init__(self, inner: LP, scale: LP | None = None):
+        self.inner, self.scale = inner, scale if scale is not None else LP.const(1)
+
+
+class Ratio(SymObject):
+    """num / den with a denominator that is a sum (kept apart so that an identity can be checked by cross-multiplication)"""
+
+    def __init__(self, num: LP, den: LP):
+        self.num, self.den = num, den
 
 
 class AngleSym(SymObject):
@@ -309,6 +344,9 @@ def library_hooks(it: "Interp") -> dict:
             return PointObj(args[0].normalized())
         if len(args) == 1 and isinstance(args[0], Table) and len(args[0].shape) == 1:
             return PointObj(args[0])  # homogeneous coordinates handed over as one array
+        if args and all(isinstance(a_, Ratio) for a_ in args) and all((a_.den - args[0].den).is_zero() for a_ in args):
+            coords = [a_.num for a_ in args] + [args[0].den]  # (n_i / w, 1) ~ (n_i, w)
+            return PointObj(Table((len(coords),), {(i,): c for i, c in enumerate(coords)}))
         try:
             coords = [it.lp(a_) for a_ in args]
         except Unknown:
@@ -383,6 +421,8 @@ class Interp:
         self.depth = 0
         self.trig = False  # read cos / sin / norm as atoms with their relations (rotation matrices)
         self.heights: set[str] = set()  # atoms that stand for the height of a cone
+        self.ratio_mode = False  # keep quotients with a sum in the denominator as Ratio objects
+        self.kinds: dict[str, set[str]] = {}  # class names a PointSym parameter is an instance of (for isinstance tests)
         self.rules: dict = {}  # atom -> (power, value): atom**power rewrites to value (norms, cos^2 = 1 - sin^2)
         self.hooks: dict = {}  # function name -> callable(args, kwargs) used instead of interpreting the call
 
@@ -407,12 +447,25 @@ class Interp:
             return _binop(lambda a, b: a * b, self.lp(v), LP.const(-1)) if not isinstance(v, Table) else Table(v.shape, {k: -x for k, x in v.data.items()})
         if isinstance(e, ast.BinOp):
             l, r = self.ev(e.left, env), self.ev(e.right, env)
+            if isinstance(e.op, (ast.Mult, ast.Div)) and (isinstance(l, AbsVal) or isinstance(r, AbsVal)):
+                if isinstance(l, AbsVal) and isinstance(r, (LP, int)):
+                    f_ = self.lp(r)
+                    return AbsVal(l.inner, l.scale * (f_ if isinstance(e.op, ast.Mult) else f_.inverse()))
+                if isinstance(r, AbsVal) and isinstance(l, (LP, int)) and isinstance(e.op, ast.Mult):
+                    return AbsVal(r.inner, r.scale * self.lp(l))
+                raise Unknown("arithmetic on an absolute value")
+            if (isinstance(l, Ratio) or isinstance(r, Ratio)) and isinstance(e.op, (ast.Mult, ast.Div)):
+                ln, ld = (l.num, l.den) if isinstance(l, Ratio) else (self.lp(l), LP.const(1))
+                rn, rd = (r.num, r.den) if isinstance(r, Ratio) else (self.lp(r), LP.const(1))
+                return Ratio(ln * rn, ld * rd) if isinstance(e.op, ast.Mult) else Ratio(ln * rd, ld * rn)
             if isinstance(l, SymObject) and isinstance(e.op, ast.Mult) and hasattr(l, "mul"):
                 return l.mul(r)
             if isinstance(l, SymObject) or isinstance(r, SymObject):
                 raise Unknown("arithmetic on a library object")
             if isinstance(l, int) and isinstance(r, int) and not isinstance(l, bool) and not isinstance(r, bool) and isinstance(e.op, (ast.Add, ast.Sub, ast.Mult)):
                 return {ast.Add: l + r, ast.Sub: l - r, ast.Mult: l * r}[type(e.op)]
+            if isinstance(l, int) and isinstance(r, int) and not isinstance(l, bool) and not isinstance(r, bool) and isinstance(e.op, ast.Div) and r != 0:
+                return LP.const(Fraction(l, r))
             if isinstance(e.op, ast.Pow):
                 if isinstance(r, int) and not isinstance(r, bool):
                     base = self.num(l)
@@ -433,6 +486,8 @@ class Interp:
             if isinstance(e.op, ast.Mult):
                 return _binop(lambda a, b: a * b, l, r)
             if isinstance(e.op, ast.Div):
+                if self.ratio_mode and isinstance(l, LP) and isinstance(r, LP) and len(r.t) > 1:
+                    return Ratio(l, r)
                 return _binop(_div, l, r)
             if isinstance(e.op, ast.MatMult):
                 return _dot(l, r)
@@ -441,7 +496,15 @@ class Interp:
             t = self.test(e.test, env)
             return self.ev(e.body if t else e.orelse, env)
         if isinstance(e, (ast.List, ast.Tuple)):
-            vals = [self.ev(x, env) for x in e.elts]
+            vals = []
+            for x in e.elts:
+                if isinstance(x, ast.Starred):
+                    sv = self.ev(x.value, env)
+                    if not isinstance(sv, (list, tuple)):
+                        return Opaque("star in a display")
+                    vals += list(sv)
+                else:
+                    vals.append(self.ev(x, env))
             if all(isinstance(v, int) and not isinstance(v, bool) for v in vals):
                 return list(vals)
             return vals
@@ -458,6 +521,13 @@ class Interp:
             return Opaque("comprehension")
         if isinstance(e, ast.Attribute):
             base = self.ev(e.value, env)
+            if isinstance(base, ObjSym):
+                if e.attr in base._attrs:
+                    return base._attrs[e.attr]
+                m_ = self.prog.lookup(base._cls, e.attr)
+                if m_ is not None and m_.is_property and self.depth < 5:
+                    return self.run_method(m_, base, [], {})
+                return Opaque(f"attribute {e.attr} of the object")
             if isinstance(base, SymObject) and hasattr(base, e.attr):
                 return getattr(base, e.attr)
             if isinstance(base, PointSym):
@@ -542,6 +612,8 @@ class Interp:
             return LP.const(v)
         if isinstance(v, LP):
             return v
+        if isinstance(v, AbsVal):
+            return LP.sym(f"abs({v.inner.show()})") * v.scale  # an atom: nothing is known about it but its non-negativity
         raise Unknown(f"not a number: {v!r}"[:60])
 
     def num(self, v):
@@ -587,6 +659,13 @@ class Interp:
                 recv = self.ev(f.value, env)
             except (Unknown, NotPolynomial):
                 recv = None
+            if isinstance(recv, ObjSym):
+                if name in self.hooks:
+                    return self.hooks[name]([recv] + [self.ev(a_, env) for a_ in e.args], {})
+                m_ = self.prog.lookup(recv._cls, name)
+                if m_ is not None and self.depth < 5:
+                    return self.run_method(m_, recv, [self.ev(a_, env) for a_ in e.args], {k_.arg: self.ev(k_.value, env) for k_ in e.keywords if k_.arg})
+                return Opaque(f"method {name}")
             if isinstance(recv, SymObject) and hasattr(recv, name):
                 return getattr(recv, name)(*[self.ev(a_, env) for a_ in e.args])
         if name in self.hooks:
@@ -682,13 +761,53 @@ class Interp:
                     return Table.full((n, n), lambda idx: v.data[(idx[0],)] if idx[0] == idx[1] else LP.const(0))
             if name in ("dot", "matmul") and len(e.args) == 2:
                 return _dot(self.num(self.ev(e.args[0], env)), self.num(self.ev(e.args[1], env)))
-            if name in ("prod", "sum") and len(e.args) == 1 and not e.keywords:
+            if name in ("prod", "sum") and len(e.args) == 1 and not e.keywords and not isinstance(e.args[0], (ast.GeneratorExp, ast.ListComp)):
                 v = self.num(self.ev(e.args[0], env))
                 if isinstance(v, Table):
                     out = LP.const(1 if name == "prod" else 0)
                     for x in v.data.values():
                         out = out * x if name == "prod" else out + x
                     return out
+            if name in ("abs", "absolute") and len(e.args) == 1 and self.ratio_mode:
+                v = self.ev(e.args[0], env)
+                if isinstance(v, (LP, int)):
+                    return AbsVal(self.lp(v))
+                if isinstance(v, Table):
+                    return Table(v.shape, {k_: LP.sym(f"abs({x_.show()})") for k_, x_ in v.data.items()})
+            if name == "average" and e.args and self.ratio_mode:
+                v = self.ev(e.args[0], env)
+                axis = next((self.ev(k_.value, env) for k_ in e.keywords if k_.arg == "axis"), None)
+                w = next((self.ev(k_.value, env) for k_ in e.keywords if k_.arg == "weights"), None)
+                rows = None
+                if isinstance(w, Table) and len(w.shape) == 1:
+                    w = [w.data[(i,)] for i in range(w.shape[0])]
+                if isinstance(v, Table) and len(v.shape) == 3 and axis == 1 and w is None:
+                    # the mean over the middle axis of a stack of tables
+                    inv_n = LP.const(Fraction(1, v.shape[1]))
+                    return Table((v.shape[0], v.shape[2]), {(i, j): sum((v.data[(i, k_, j)] for k_ in range(v.shape[1])), LP()) * inv_n
+                                                          for i in range(v.shape[0]) for j in range(v.shape[2])})
+                if isinstance(v, Table) and len(v.shape) == 2:
+                    rows = [v.get(i) for i in range(v.shape[0])]
+                elif isinstance(v, list) and v and all(isinstance(x, Table) and len(x.shape) == 1 and x.shape == v[0].shape for x in v):
+                    rows = v
+                if rows is not None and axis == 0:
+                    k = rows[0].shape[0]
+                    if w is None:
+                        inv_n = LP.const(Fraction(1, len(rows)))
+                        return Table((k,), {(j,): sum((r_.data[(j,)] for r_ in rows), LP()) * inv_n for j in range(k)})
+                    if isinstance(w, list) and len(w) == len(rows):
+                        ws = [self.lp(x) for x in w]
+                        den = sum(ws, LP())
+                        return [Ratio(sum((w_ * r_.data[(j,)] for w_, r_ in zip(ws, rows)), LP()), den) for j in range(k)]
+            if name == "sum" and len(e.args) == 1 and isinstance(e.args[0], (ast.GeneratorExp, ast.ListComp)):
+                g = e.args[0]
+                items = self.ev(ast.ListComp(elt=g.elt, generators=g.generators), env)
+                if isinstance(items, list) and all(isinstance(x, (LP, int)) for x in items):
+                    return sum((self.lp(x) for x in items), LP())
+            if name == "range" and len(e.args) == 2:
+                a_, b_ = self.ev(e.args[0], env), self.ev(e.args[1], env)
+                if isinstance(a_, int) and isinstance(b_, int):
+                    return range(a_, b_)
             if name in ("maximum", "minimum", "abs", "absolute", "sqrt") and e.args:
                 args = [self.num(self.ev(a, env)) for a in e.args]
                 if isinstance(args[0], Table):
@@ -712,6 +831,33 @@ class Interp:
                 v = self.ev(e.args[0], env)
                 if isinstance(v, int) and not isinstance(v, bool):
                     return range(v)
+            if name == "isinstance" and len(e.args) == 2:
+                v = self.ev(e.args[0], env)
+                names_ = [x.id for x in (e.args[1].elts if isinstance(e.args[1], ast.Tuple) else [e.args[1]]) if isinstance(x, ast.Name)]
+                if isinstance(v, PointSym) and names_:
+                    return any(n_ in POINT_CLASSES for n_ in names_)
+                return Opaque("isinstance")
+            if name in ("all", "any") and len(e.args) == 1:
+                v = self.ev(e.args[0], env)
+                if isinstance(v, bool):
+                    return v
+            if name in ("stack", "vstack") and e.args:
+                v = self.ev(e.args[0], env)
+                axis = 0
+                for k_ in e.keywords:
+                    if k_.arg == "axis":
+                        axis = self.ev(k_.value, env)
+                if len(e.args) > 1:
+                    axis = self.ev(e.args[1], env)
+                if isinstance(v, list) and v and all(isinstance(x, Table) and len(x.shape) == 1 for x in v) and axis in (0, -2):
+                    return _stack_rows(v)
+                if isinstance(v, list) and v and all(isinstance(x, Table) and len(x.shape) == 1 for x in v) and axis in (1, -1):
+                    t_ = _stack_rows(v)
+                    return Table((t_.shape[1], t_.shape[0]), {(j, i): x for (i, j), x in t_.data.items()})
+            if name == "broadcast_arrays":
+                vals = [self.ev(a_, env) for a_ in e.args]
+                if vals and all(isinstance(x, Table) and x.shape == vals[0].shape for x in vals):
+                    return vals
             if name == "len" and len(e.args) == 1:
                 v = self.ev(e.args[0], env)
                 if isinstance(v, Table):
@@ -723,6 +869,8 @@ class Interp:
         if name in ("det", "adjugate") and len(e.args) == 1:
             v = self.ev(e.args[0], env)
             t = _stack_rows([self.num(x) for x in v]) if isinstance(v, list) else self.num(v)
+            if isinstance(t, Table) and len(t.shape) == 3 and name == "det":
+                return Table((t.shape[0],), {(i,): _det_table(t.get(i)) for i in range(t.shape[0])})
             if isinstance(t, Table):
                 return _det_table(t) if name == "det" else _adjugate_table(t)
         if name == "cross" and len(e.args) == 2:
@@ -766,6 +914,25 @@ class Interp:
                 self.heights.add(next(iter(atom.t))[0][0])
                 return atom  # the distance of the two points: an atom h with h^2 = |a - b|^2
         return Opaque(f"call {name}")
+
+    def run_method(self, m: FunctionInfo, recv, args: list, kwargs: dict):
+        m = self.prog.body_of(m)
+        names = [x.arg for x in m.node.args.args]
+        env2 = {names[0]: recv} if names else {}
+        for nm, v in zip(names[1:], args):
+            env2[nm] = v
+        env2.update(kwargs)
+        sub = Interp(self.prog, self.cls, self.assume)
+        sub.depth = self.depth + 1
+        sub.infinite, sub.quadric_ctors = self.infinite, self.quadric_ctors
+        sub.trig, sub.rules, sub.hooks, sub.heights, sub.ratio_mode = self.trig, self.rules, self.hooks, self.heights, self.ratio_mode
+        try:
+            sub.block(m.node.body, env2)
+        except _Done as d:
+            return d.matrix
+        except _Raise:
+            return Opaque("the method raises")
+        return None
 
     def sqrt_atom(self, inner: LP) -> LP:
         """sqrt(inner), the principal (non-negative) root, as an atom with the relation atom^2 = inner"""
@@ -921,6 +1088,9 @@ class Interp:
                     pass
             return
         if isinstance(st, (ast.Import, ast.ImportFrom, ast.Pass)):
+            return
+        if isinstance(st, ast.With) and all(isinstance(i_.context_expr, ast.Call) and (getattr(i_.context_expr.func, "attr", "") == "errstate") for i_ in st.items):
+            self.block(st.body, env)  # np.errstate only silences warnings
             return
         if isinstance(st, ast.Raise):
             raise _Raise()
@@ -1426,3 +1596,139 @@ def rule_degenerate(run: Run, prog: Program) -> int:
             except (Unknown, NotPolynomial) as ex:
                 run.add("E19.deg", fn.short, "pencil", UNDECIDED, f"not read: {str(ex)[:100]}", fn.loc)
     return n
+
+
+# ---------------------------------------------------------------------------------------------- cross ratio (C11)
+def rule_crossratio(run: Run, prog: Program) -> int:
+    run.rule("E19.cr", "crossratio(a, b, c, d) of four points P + x_i Q of one line - in the plane, in the plane seen from a fifth point, and in 3-space - is "
+                       "(x1 - x3)(x2 - x4) / ((x1 - x4)(x2 - x3)): the returned quotient of determinants, read as polynomials in P, Q and the parameters, "
+                       "equals the closed form after cross-multiplication")
+    fn = prog.find_func("crossratio")
+    if fn is None:
+        run.add("E19.cr", "crossratio", "closed form", UNDECIDED, "crossratio not found", "")
+        return 0
+    fn = prog.body_of(fn)
+    params = [a.arg for a in fn.node.args.args]
+    if len(params) < 4:
+        run.add("E19.cr", fn.short, "closed form", UNDECIDED, "signature changed", fn.loc)
+        return 0
+    xs = [LP.sym(f"x{i}") for i in range(1, 5)]
+    want_num = (xs[0] - xs[2]) * (xs[1] - xs[3])
+    want_den = (xs[0] - xs[3]) * (xs[1] - xs[2])
+    n = 0
+    for label, dim, with_from in (("four points of a line in the plane", 2, False), ("four points of a line in the plane, seen from a fifth point", 2, True),
+                                  ("four points of a line in 3-space", 3, False)):
+        n += 1
+        base = [LP.sym(f"p{i}") for i in range(dim)] + [LP.const(1)]
+        direction = [LP.sym(f"q{i}") for i in range(dim)] + [LP.const(0)]
+        env: dict = {}
+        for k, x in enumerate(xs):
+            coords = [b_ + x * d_ for b_, d_ in zip(base, direction)]
+            pt = PointSym(f"pt{k}", dim, coords=coords[:-1])
+            env[params[k]] = pt
+        if len(params) > 4:
+            env[params[4]] = PointSym("o", 2) if with_from else None
+        it = Interp(prog, None, {})
+        it.ratio_mode = True
+        it.hooks = {"matvec": lambda a_, k_: _dot(a_[0], a_[1]) if len(a_) == 2 and isinstance(a_[0], Table) and isinstance(a_[1], Table) else Opaque("matvec"),
+                    "is_collinear": lambda a_, k_: True, "is_concurrent": lambda a_, k_: True}
+        # the arguments are distinct points: `a == b` is false
+        it.assume = {"distinct": True}
+        loc = fn.loc
+        try:
+            got = None
+            try:
+                it.block(fn.node.body, env)
+            except _Done as d:
+                got = d.matrix
+            if isinstance(got, Ratio):
+                num, den = got.num, got.den
+            elif isinstance(got, LP):
+                num, den = got, LP.const(1)
+            else:
+                run.add("E19.cr", fn.short, label, UNDECIDED, f"the returned value is not read as a quotient of polynomials: {getattr(got, 'why', type(got).__name__)[:100]}", loc)
+                continue
+            resid = num * want_den - den * want_num
+        except (Unknown, NotPolynomial, RecursionError) as ex:
+            run.add("E19.cr", fn.short, label, UNDECIDED, f"not read: {str(ex)[:100]}", loc)
+            continue
+        if den.is_zero():
+            run.add("E19.cr", fn.short, label, VIOLATION, "the denominator of the returned quotient vanishes identically for collinear points", loc)
+        elif resid.is_zero():
+            run.add("E19.cr", fn.short, label, PROVEN, "the quotient of determinants equals (x1 - x3)(x2 - x4) / ((x1 - x4)(x2 - x3)) identically", loc)
+        else:
+            # which classical value is it, if any: the six values of the cross ratio under permutations
+            lam_n, lam_d = want_num, want_den
+            others = {"1/cr (c and d exchanged)": (lam_d, lam_n), "1 - cr (b and c exchanged)": (lam_d - lam_n, lam_d), "cr/(cr - 1)": (lam_n, lam_n - lam_d),
+                      "1/(1 - cr)": (lam_d, lam_d - lam_n), "(cr - 1)/cr": (lam_n - lam_d, lam_n)}
+            which = next((k_ for k_, (a_, b_) in others.items() if (num * b_ - den * a_).is_zero()), None)
+            run.add("E19.cr", fn.short, label, VIOLATION,
+                    "the returned quotient is not the cross ratio of the parameters" + (f": it is {which}" if which else f" (residual with {len(resid.t)} terms)"), loc)
+    return n
+
+
+# ---------------------------------------------------------------------------------------------- polygon measures (C17)
+def rule_polygon_measures(run: Run, prog: Program) -> int:
+    run.rule("E19.poly", "PolygonTensor.area and Polygon.centroid of a planar polygon with symbolic vertices (x_i, y_i), n = 3, 4, 5: the area is 1/2 |shoelace sum| and the "
+                         "centroid is the area centroid (sum (p_i + p_{i+1}) cross_i : 3 sum cross_i), as polynomial identities in the vertex coordinates")
+    n_ob = 0
+    tensor = prog.find_cls("PolygonTensor")
+    poly = prog.find_cls("Polygon")
+    if tensor is None or poly is None:
+        run.add("E19.poly", "Polygon", "measures", UNDECIDED, "Polygon / PolygonTensor not found", "")
+        return 0
+    for n in (3, 4, 5):
+        xs, ys = [LP.sym(f"x{i}") for i in range(n)], [LP.sym(f"y{i}") for i in range(n)]
+        pts = Table((n, 3), {(i, j): (xs[i] if j == 0 else ys[i] if j == 1 else LP.const(1)) for i in range(n) for j in range(3)})
+        cross = [xs[i] * ys[(i + 1) % n] - xs[(i + 1) % n] * ys[i] for i in range(n)]
+        shoelace = sum(cross, LP())
+        cx = sum(((xs[i] + xs[(i + 1) % n]) * cross[i] for i in range(n)), LP())
+        cy = sum(((ys[i] + ys[(i + 1) % n]) * cross[i] for i in range(n)), LP())
+        for member, owner in (("area", tensor), ("centroid", poly)):
+            fn = prog.lookup(owner, member)
+            if fn is None:
+                continue
+            fn = prog.body_of(fn)
+            n_ob += 1
+            label = f"{member} of a planar polygon with {n} vertices"
+            loc = fn.loc
+            me = ObjSym(owner, array=pts, normalized_array=pts, dim=2, shape=(n, 3), free_indices=0)
+            it = Interp(prog, owner, {})
+            it.ratio_mode = True
+            it.hooks = {**library_hooks(it), "_normalize_array": lambda a_, k_: a_[-1]}
+            try:
+                got = it.run_method(fn, me, [], {})
+            except (Unknown, NotPolynomial, RecursionError) as ex:
+                run.add("E19.poly", fn.short, label, UNDECIDED, f"not read: {str(ex)[:100]}", loc)
+                continue
+            if member == "area":
+                if not isinstance(got, AbsVal):
+                    run.add("E19.poly", fn.short, label, UNDECIDED, f"the returned value is not read as a multiple of an absolute value ({getattr(got, 'why', type(got).__name__)[:80]})", loc)
+                    continue
+                # scale * |inner| = 1/2 |shoelace|
+                ok = any((got.inner * got.scale - shoelace * LP.const(Fraction(s_, 2))).is_zero() for s_ in (1, -1))
+                if ok:
+                    run.add("E19.poly", fn.short, label, PROVEN, "1/2 |sum of x_i y_{i+1} - x_{i+1} y_i|", loc)
+                else:
+                    run.add("E19.poly", fn.short, label, VIOLATION,
+                            f"the area is {got.scale.show()} * |polynomial with {len(got.inner.t)} terms|, not 1/2 |shoelace sum| ({2 * n} terms): "
+                            f"{'a vertex or a triangle of the fan is missing' if len(got.inner.t) < 2 * n else 'the sum is not the shoelace sum'}", loc)
+            else:
+                if not isinstance(got, PointObj) or got.array.shape != (3,):
+                    run.add("E19.poly", fn.short, label, UNDECIDED, f"the returned value is not read as a point ({getattr(got, 'why', type(got).__name__)[:80]})", loc)
+                    continue
+                g = [got.array.data[(i,)] for i in range(3)]
+                w = [cx, cy, shoelace * LP.const(3)]
+                try:
+                    ok = all(zero_mod(g[i] * w[j] - g[j] * w[i], it.rules) for i in range(3) for j in range(i + 1, 3)) and not g[2].is_zero()
+                except NotPolynomial as ex:
+                    run.add("E19.poly", fn.short, label, UNDECIDED, f"not read: {str(ex)[:100]}", loc)
+                    continue
+                if ok:
+                    run.add("E19.poly", fn.short, label, PROVEN, "(sum (x_i + x_{i+1}) c_i : sum (y_i + y_{i+1}) c_i : 3 sum c_i), c_i = x_i y_{i+1} - x_{i+1} y_i", loc)
+                else:
+                    has_abs = any("abs(" in s_ for k_ in g for mono in k_.t for s_, _e in mono)
+                    run.add("E19.poly", fn.short, label, VIOLATION,
+                            "the returned point is not the area centroid of the polygon"
+                            + (": the triangles of the fan are weighted by ABSOLUTE areas - right for convex polygons only, a reflex vertex makes a triangle of the fan negative" if has_abs else ""), loc)
+    return n_ob
